@@ -50,7 +50,7 @@ Dispatch(e) == LET a == e.a  o == e.res IN
     \/ e.op = "Binary"    /\ Binary(a.f, a.i, a.j, a.d, o)
     \/ e.op = "Ternary"   /\ Ternary(a.f, a.i, a.j, a.k, a.d, o)
     \/ e.op = "Compare"   /\ Compare(a.f, a.i, a.j, o)
-    \/ e.op = "Compound"  /\ Compound(a.f, a.i, a.j, o)
+    \/ e.op = "Compound"  /\ Compound(a.f, a.i, a.j, IF "cj" \in DOMAIN a THEN a.cj ELSE "cl", o)
     \/ e.op = "Select"    /\ Select(a.c, a.i, a.j, a.d, o)
     \/ e.op = "ValueOr"   /\ ValueOr(a.i, a.dv, a.form, o)
     \/ e.op = "Get"       /\ Get(a.i, a.path, o)
